@@ -197,6 +197,17 @@ def first_access(ix, cg, fi, key, memo, stack=()):
         return None
     memo[mk] = None
 
+    _ift = []
+
+    def if_truth():
+        if not _ift:
+            try:
+                from ..arrnf import ANF as _ANF
+                _ift.append(getattr(_ANF(ix, fi, options={"transient": False}).run(), "if_truth", {}))
+            except Exception:       # noqa  (statement forms outside the term language: no propagation, the scan stays conservative)
+                _ift.append({})
+        return _ift[0]
+
     def scan(stmts):
         for st in stmts:
             r = scan_stmt(st)
@@ -243,6 +254,8 @@ def first_access(ix, cg, fi, key, memo, stack=()):
             if r:
                 return r[0]
             c = _transient_const(st.test)
+            if c is None:
+                c = if_truth().get(id(st))       # constant propagation through locals and helpers (transient=False)
             if c is True:
                 return scan(st.body)
             if c is False:
